@@ -12,34 +12,34 @@ COMMON_ASSUME = ("trusted base: govc's SSA->SMT translation (DESIGN.md section 3
 TECH = "contract-based deductive verification (own VC generator over go/ssa, SMT)"
 P = {
 "C01": (True,
- "Deductive proof, for all templates and requests, that the CurlyRouter's path matcher admits exactly the requests the template admits (literal, regex, {v}suffix, custom verb, tail wildcard, segment count), that Accept/Content-Type admission (Route.matchesAccept/matchesContentType) equals the declarative header oracle, that selectRoutes returns exactly the admitted routes, that RouterJSR311.detectRoute (shared by both routers) only returns a candidate that passes method, Content-Type and Accept, that CurlyRouter.SelectRoute meets the RouteSelector interface contract, and that dispatch calls a route function only on the selected, admitted route.",
- COMMON_ASSUME + "A-VERB (meaning of the three custom-verb regular expressions; bounded stand-in over a string pool on every run, labelled bounded), regexp.MatchString uninterpreted, A-SORT, A-CB/A-PURE for callbacks; the RouteSelector interface contract is proved for CurlyRouter and assumed for RouterJSR311.",
- ["RouterJSR311 path matching (meaning of compiled template expressions, A-JSR)", "what net/http does before dispatch (ServeMux pattern choice)"],
+ "Deductive proof, for all templates and requests, that the CurlyRouter's path matcher admits exactly the requests the template admits (literal, regex, {v}suffix, custom verb, tail wildcard, segment count), that Accept/Content-Type admission (Route.matchesAccept/matchesContentType) equals the declarative header oracle, that selectRoutes returns exactly the admitted routes, that RouterJSR311.detectRoute (shared by both routers) returns a route exactly when one passes conditions, method, Content-Type and Accept, that CurlyRouter.SelectRoute meets the RouteSelector interface contract, and that dispatch calls a route function only on the selected, admitted route. For RouterJSR311: detectDispatcher, selectRoutes and SelectRoute keep exactly the services/routes whose compiled expression matches (stated over the regular-expression engine as two deterministic functions).",
+ COMMON_ASSUME + "A-VERB (meaning of the three custom-verb regular expressions; bounded stand-in over a string pool on every run, labelled bounded), A-JSR (what a compiled template expression matches: newPathExpression's contract is validated by a bounded stand-in over 21 templates x 38 paths on every run, labelled bounded), regexp.MatchString uninterpreted, A-SORT, A-CB/A-PURE for callbacks; the RouteSelector interface contract is proved for CurlyRouter and assumed for RouterJSR311.",
+ ["the link from 'the compiled expression matches' to 'the template admits the path' for RouterJSR311 beyond the bounded pool (A-JSR)", "what net/http does before dispatch (ServeMux pattern choice)"],
  TECH),
 "C02": (True,
- "Deductive proof of totality (no nil dereference, index, slice-bounds, type-assertion or nil-map panic) for the functions on the Curly dispatch path under their stated preconditions, of computeWebserviceScore/detectWebService (best root; regex roots claim only URLs they match), of detectRoute's error statuses (405 carries an Allow list that is sound and duplicate-free), of sortedMimes/insertMime totality, and of dispatch's lock balance and panic containment.",
- COMMON_ASSUME + "A-VERB, regexp uninterpreted, A-CB, interface contracts of RouteSelector/PathProcessor assumed at call sites.",
- ["completeness of the 405 Allow list and exact 404/415/406 precedence (the quantifier alternation after append is not discharged)", "RouterJSR311 path stage", "what net/http does before and after dispatch"],
+ "Deductive proof of totality (no nil dereference, index, slice-bounds, type-assertion or nil-map panic) for the functions on the dispatch path of both routers under their stated preconditions; of computeWebserviceScore/detectWebService (best root; regex roots claim only URLs they match) and detectDispatcher (404 exactly when no root expression matches); of detectRoute's exact outcome: a route iff some route passes all four stages, otherwise 404/405/415/406 decided by the first stage that leaves nothing (bodiless POST/PUT/PATCH rule included), with a 405 Allow list that is sound, complete and duplicate-free; of sortedMimes/insertMime totality; and of dispatch's lock balance and panic containment.",
+ COMMON_ASSUME + "A-VERB, A-JSR, regexp uninterpreted, A-CB, interface contracts of RouteSelector/PathProcessor assumed at call sites.",
+ ["composition of the per-stage contracts into one statement over dispatch's written status (writeServiceError is inlined, the status written is the status of the error returned)", "what net/http does before and after dispatch"],
  TECH),
 "C03": (True,
- "Deductive proof that the Curly ranking comparator equals its lexicographic key spec, that the key order is a strict weak order (lemma C03.curly-less-swo), that selectRoutes returns the admitted candidates sorted by it, and that detectWebService computes the arg-max of the root score, first among equals (inductive lemma C03.service-argmax).",
- COMMON_ASSUME + "A-SORT (sort.Sort permutes and orders by Less).",
- ["registration-order independence when different root shapes score equal (D10, documented finding, not a check)", "RouterJSR311 ranking"],
+ "Deductive proof that all three ranking comparators (sortableCurlyRoutes, sortableRouteCandidates, sortableDispatcherCandidates) equal their lexicographic key specs, that each key order is a strict weak order (lemmas), that CurlyRouter.selectRoutes and RouterJSR311.selectRoutes return the matching candidates sorted by it, that detectWebService computes the arg-max of the root score (first among equals, inductive lemma) and detectDispatcher a candidate no other matching one outranks, and that detectRoute returns the first route of the ranked list that passes all stages.",
+ COMMON_ASSUME + "A-SORT (sort.Sort permutes and orders by Less; sort.Reverse modelled as the identity with the reversed order in the contract).",
+ ["the composition lemma 'no admitted passing route ranks before the selected one' at SelectRoute level (each link is a proved contract; the chained quantifier instantiation was not discharged)", "registration-order independence when different shapes score equal (D10) or JSR311 keys tie (sort.Sort is not stable)"],
  TECH + ", inductive lemmas"),
 "C04": (True,
- "Deductive proof that tokenizePath yields the token sequence of the path, that untokenizePath joins the remaining tokens with '/', that defaultPathProcessor.ExtractParameters is total on every admitted (route, path) pair, that concatPath/postBuild/Build produce a route whose tokens are the tokens of root+sub-path, and that dispatch hands the extracted parameters of the selected route to the request.",
- COMMON_ASSUME + "models of strings.Split/Trim as recursive definitions; newPathExpression/nameOfFunction trusted (total).",
- ["exact map contents produced by ExtractParameters (safety and frame only)", "RouterJSR311.ExtractParameters (A-JSR)"],
+ "Deductive proof that tokenizePath yields the token sequence of the path, that untokenizePath joins the remaining tokens with '/', that defaultPathProcessor.ExtractParameters is total on every admitted (route, path) pair, that RouterJSR311.extractParams/ExtractParameters bind exactly the declared names to the groups of the two matches (route variables win, nothing else bound), that concatPath/postBuild/Build produce a route whose tokens are the tokens of root+sub-path, and that dispatch extracts with the processor belonging to the router that selected the route and hands the result to the request.",
+ COMMON_ASSUME + "models of strings.Split/Trim as recursive definitions; A-JSR (which text a group captures); newPathExpression/nameOfFunction trusted.",
+ ["exact map contents produced by defaultPathProcessor.ExtractParameters (safety and frame only: the string-level proof did not discharge)", "round-trip 'substituting back reproduces the path'"],
  TECH),
 "C06": (True,
- "Deductive proof of FilterChain.ProcessFilter's contract (exactly one dynamic call: the filter at the old index with the index advanced first, or the target once filters are exhausted; same request/response passed) including exceptional exits, of dispatch's construction of the chain (container filters, then service filters, then route filters, then the route function; error path runs container filters only), and of the net/http middleware adapter closure.",
+ "Deductive proof of FilterChain.ProcessFilter's contract (exactly one dynamic call: the filter at the old index with the index advanced first, or the target once filters are exhausted; same request/response passed) including exceptional exits, of dispatch's construction of the chain (container filters, then service filters, then route filters, then the route function; error path runs container filters only), of HandleWithFilter's chain (exactly the container filters around the plain handler), and of the net/http middleware adapter closure.",
  COMMON_ASSUME + "A-CB (callbacks do not reconfigure framework objects).",
  ["composition of the chain over unknown filters is an induction over user code (meta-argument in DESIGN.md)", "concurrent interleavings"],
  TECH),
 "C07": (True,
- "Deductive proof of wantsCompressedResponse (coding choice, skip when the response is already encoded), NewCompressingResponseWriter (label set, compressor acquired and Reset onto the writer), CompressingResponseWriter Write/WriteHeader/Header forwarding, Close (release exactly once, representation invariant), and of dispatch's deferred Close on every exit and its treatment of the per-route override.",
- COMMON_ASSUME + "A-CODEC (gzip/zlib writer model), interface contract of CompressorProvider.",
- ["codec correctness (decode(encode(x)) == x) is a dependency property", "ServeHTTP/Handle entry points are not under contract", "D14 (route ContentEncodingEnabled(false) ignored when an outer writer already compresses) is an open known finding with a replayable witness"],
+ "Deductive proof of wantsCompressedResponse (coding choice, skip when the response is already encoded), NewCompressingResponseWriter (label set, compressor acquired and Reset onto the writer), CompressingResponseWriter Write/WriteHeader/Header forwarding, Close (release exactly once, representation invariant), and of all entry points — dispatch, Container.ServeHTTP and the handler Handle registers: the writer is wrapped at most once, only when enabled, asked for and not yet encoded, the inner handler gets the writer in use, and what was installed is closed on every exit; dispatch honours the per-route override.",
+ COMMON_ASSUME + "A-CODEC (gzip/zlib writer model), interface contract of CompressorProvider, ServeMux.ServeHTTP as a callback.",
+ ["codec correctness (decode(encode(x)) == x) is a dependency property", "D14 (route ContentEncodingEnabled(false) ignored when an outer writer already compresses) is an open known finding with a replayable witness"],
  TECH),
 "C08": (True,
  "Deductive proof that isOriginAllowed answers true only for origins the configuration allows (whole-entry case-insensitive match, wildcard, predicate) and false for the empty origin; of AddHeader's exact effect on the header map; and of CrossOriginResourceSharing.Filter: no CORS header unless the origin is allowed, Allow-Origin echoes the request origin verbatim exactly once, credentials only if configured, and without an allowed Origin the filter's whole effect is chain.ProcessFilter on untouched headers.",
@@ -47,14 +47,14 @@ P = {
  ["regular-expression allowed domains beyond 'some entry matched' (regexp uninterpreted)"],
  TECH),
 "C09": (True,
- "Deductive proof that a preflight (OPTIONS with Access-Control-Request-Method from an allowed origin) is answered by the filter alone (no chain call), that doPreflightRequest grants only methods and headers the configuration or the container's routes allow (isValidAccessControlRequestMethod/-Header, computeAllowedMethods sound), and that a refused preflight writes no grant header.",
- COMMON_ASSUME + "regexp.FindStringSubmatch trusted (A-JSR), A-PURE.",
- ["completeness of the grant (every allowed method is granted) is not discharged", "computeAllowedMethods unions all services whose root matches while dispatch uses the best one (D8, documented)"],
+ "Deductive proof that a preflight (OPTIONS with Access-Control-Request-Method from an allowed origin) is answered by the filter alone (no chain call), that doPreflightRequest leaves the headers untouched unless the requested method and every requested header are allowed (isValidAccessControlRequestMethod/-Header equal their oracles), that the methods computed for an unconfigured filter are exactly the methods of the routes matching the URL (computeAllowedMethods sound and complete), and that the filter value itself is never mutated (so nothing carries over between preflights).",
+ COMMON_ASSUME + "A-JSR (computeAllowedMethods is stated over the regular-expression engine), A-PURE.",
+ ["computeAllowedMethods unions all services whose root matches while dispatch uses the best one (D8, documented)"],
  TECH),
 "C10": (True,
- "Deductive proof over explicit exceptional edges that dispatch releases the services lock on every exit, closes an installed compressing writer on every exit, releases every compressor it acquired (ghost acquire/release counters balance on normal and exceptional exits), and lets a panic escape only if recovery is off or the recover handler itself panicked.",
+ "Deductive proof over explicit exceptional edges that dispatch releases the services lock on every exit (also when the router or a route condition panics), closes an installed compressing writer on every exit, releases every compressor it acquired (ghost acquire/release counters balance on normal and exceptional exits), hands the recover handler the writer in use before closing it, and lets a panic escape only if recovery is off or the recover handler itself panicked; the same close/balance obligations for Container.ServeHTTP and the handler Handle registers.",
  COMMON_ASSUME + "A-CB, A-CODEC, interface contracts at call sites.",
- ["panics inside net/http or the runtime", "ServeHTTP/Handle entry points"],
+ ["panics inside net/http or the runtime"],
  TECH + ", exceptional postconditions"),
 "C11": (True,
  "Deductive proof over a ghost model of net/http.ServeMux's pattern set that Container.Add registers exactly the patterns of the new service (root and root+'/', '/' once) and never registers a pattern twice, so it cannot panic inside net/http under the distinct-roots precondition (roots differing only by a trailing slash included), that Remove rebuilds a mux holding exactly the patterns of the remaining services, that addHandler's closure dispatches, and that WebService.Route/RemoveRoute/Routes keep the route list consistent with its lock.",
@@ -62,19 +62,19 @@ P = {
  ["patterns registered through Container.Handle/HandleWithFilter are forgotten by Remove (D12, documented finding; repair needs a new field)", "ServeMux's own longest-pattern matching"],
  TECH),
 "C12": (True,
- "Deductive proof of lock discipline as guarded-by obligations: every read or write of Container.webServices/ServeMux and WebService.routes in the functions under contract happens with the declared lock held in the right mode, locks are balanced on every exit (including panics), and no function under contract acquires a lock it already holds.",
+ "Deductive proof of lock discipline as guarded-by obligations: every read or write of Container.webServices/ServeMux and WebService.routes in the functions under contract happens with the declared lock held in the right mode, locks are balanced on every exit (including panics raised by user code during route selection), and no function under contract acquires a lock it already holds.",
  COMMON_ASSUME + "sync.RWMutex modelled as per-goroutine ghost state (not re-entrant); interference from other goroutines is havoc of guarded state while the lock is not held.",
  ["real schedules and the Go memory model (a lock-discipline proof, not a race detector)", "exported fields users may touch without the lock"],
  TECH + ", guarded-by obligations"),
 "C13": (True,
- "Deductive proof of compressor ownership: NewCompressingResponseWriter acquires exactly one compressor and Resets it; Close releases it exactly once and refuses a second Close; Request.ReadEntity releases everything it acquires on every exit (ghost counters; the same balance for dispatch is an obligation of the C10 check); ReadEntity Resets the pooled reader onto the body before any read; BoundedCachedCompressors Acquire* return a fresh or pooled-and-unheld object and Release* never blocks (select with default) and only sends an object the caller held.",
+ "Deductive proof of compressor ownership: NewCompressingResponseWriter acquires exactly one compressor and Resets it; Close releases it exactly once and refuses a second Close; Request.ReadEntity, Container.ServeHTTP and the handler Handle registers release everything they acquire on every exit (ghost counters; the same balance for dispatch is an obligation of the C10 check); ReadEntity Resets the pooled reader onto the body before any read; BoundedCachedCompressors Acquire* return a fresh or pooled-and-unheld object and Release* never blocks (select with default) and only sends an object the caller held.",
  COMMON_ASSUME + "A-POOL (channel model: receive yields an object some release sent), A-CODEC, SyncPoolCompessors (sync.Pool) not modelled; user callbacks cannot release the gzip reader ReadEntity holds.",
  ["real schedules", "sync.Pool internals", "ReadEntity leaves Request.Body pointing at the released reader (D13, candidate only, sequentially benign)"],
  TECH),
 "C14": (True,
- "Deductive proof of tokenizePath against the token oracle plus the lemma C14.trailing-slash (the token sequence of p and of p+'/' are equal for every p, by general induction over the recursive Split/Trim models): everything the Curly pipeline derives from the path is a function of that token sequence; concatPath/postBuild/Build give the same tokens for roots and sub-paths with and without trailing slash.",
- COMMON_ASSUME + "models of strings.Split/Trim.",
- ["RouterJSR311 half (regular-expression semantics)", "ServeMux redirect behaviour for trailing slashes"],
+ "Deductive proof of tokenizePath against the token oracle plus the lemma C14.trailing-slash (the token sequence of p and of p+'/' are equal for every p, by general induction over the recursive Split/Trim models): everything the Curly pipeline derives from the path is a function of that token sequence; concatPath/postBuild/Build give the same tokens for roots and sub-paths with and without trailing slash. For RouterJSR311: selectRoutes keeps exactly the routes whose final group is empty or '/', and detectDispatcher chooses by rank among all matching roots (not by exact hit).",
+ COMMON_ASSUME + "models of strings.Split/Trim; A-JSR.",
+ ["that the compiled expressions themselves match p and p+'/' alike (regular-expression semantics; covered only by the bounded stand-in pool)", "ServeMux redirect behaviour for trailing slashes"],
  TECH + ", inductive lemmas"),
 "C15": (True,
  "Deductive proof that Response.Write adds exactly the count the underlying writer accepted and returns its results unchanged, that WriteHeader records and forwards the status once, of StatusCode/ContentLength, and that CompressingResponseWriter forwards Write/WriteHeader/Header to the right target, over a ghost model of an arbitrary http.ResponseWriter.",
@@ -82,22 +82,22 @@ P = {
  ["WriteEntity/WriteAsJson/WriteError* paths (encoders are dependencies)", "lemma over call sequences"],
  TECH),
 "C16": (True,
- "Deductive proof of the framework glue only: Request.ReadEntity acquires at most one pooled gzip reader, Resets it onto the request body before the entity reader is called (so no state of an earlier body survives), releases it on every exit, returns the zlib/lookup/decoder error instead of panicking, and looks accessors up without touching the registry; accessorAt is total.",
+ "Deductive proof of the framework glue only: Request.ReadEntity acquires at most one pooled gzip reader, Resets it onto the request body before the entity reader is called (so no state of an earlier body survives), releases it on every exit, returns the zlib/lookup/decoder error instead of panicking; accessorAt returns the exactly registered accessor, else one whose registered type occurs in the Content-Type value (parameters and spacing tolerated, every map iteration order covered), else nothing — and nothing only if no registered type occurs in it.",
  COMMON_ASSUME + "A-RT/A-CODEC: encoding/json, encoding/xml, compress/gzip and compress/zlib are dependencies (trusted: decode errors are returned, Reset forgets earlier state).",
  ["write-then-read equality of values (a property of encoding/json and encoding/xml, not of this package)", "behaviour of the codecs on corrupt input"],
  TECH),
 "C17": (True,
- "Deductive proof that the Allow list attached to a 405 by detectRoute contains only methods of routes matching the path and no duplicates, that OPTIONSFilter answers OPTIONS alone with Allow equal to computeAllowedMethods and passes every other method through untouched, and that computeAllowedMethods is sound with respect to the container's routes.",
- COMMON_ASSUME + "regexp.FindStringSubmatch trusted (A-JSR).",
- ["completeness of the Allow list (every matching method listed)", "agreement between computeAllowedMethods (all matching roots) and dispatch (best root) — D8, documented"],
+ "Deductive proof that the Allow list attached to a 405 by detectRoute contains exactly the methods of the routes matching the path (sound, complete, no duplicates) and that 405 is returned exactly when some route passes its conditions and none has the method; that OPTIONSFilter answers OPTIONS alone with Allow equal to the list computeAllowedMethods returns for this container and request and passes every other method through untouched; and that computeAllowedMethods returns exactly the methods of the routes whose expressions match the URL.",
+ COMMON_ASSUME + "A-JSR (computeAllowedMethods is stated over the regular-expression engine).",
+ ["agreement between computeAllowedMethods (all matching roots, regex matching) and what dispatch answers (best root; token matching under CurlyRouter) — D8, documented, and A-JSR"],
  TECH),
 "C18": (True,
- "Deductive proof of the CurlyRouter half against the shared routing oracle (matcher, score, candidate set) and of the detectRoute stage both routers share.",
- COMMON_ASSUME + "A-VERB.",
- ["RouterJSR311 path stage and the agreement lemma itself (A-JSR: meaning of compiled regular expressions)", "D9 (rankings differ: static tokens vs literal characters), documented"],
+ "Deductive proof of both routers against their own oracles: the CurlyRouter against the token oracle (matcher, score, candidate set, ranking), RouterJSR311 against the regular-expression engine seen as two deterministic functions (matching services, matching routes, ranking, parameter extraction), and of the detectRoute stage both share (exact outcome, first candidate). On the common fragment the two oracles are connected by newPathExpression's contract (the compiled expression matches exactly the paths the template admits), validated by a bounded stand-in on every run.",
+ COMMON_ASSUME + "A-VERB, A-JSR (bounded: 21 templates x 38 probe paths, labelled bounded).",
+ ["the agreement lemma itself (same route, same parameters, same status for every table of the common fragment): it needs A-JSR for all strings, not a pool", "D9 (rankings differ: static tokens vs literal characters), documented"],
  TECH),
 "C19": (True,
- "Deductive frame proofs: each function under contract on the dispatch path changes only the locations in its modifies clause — route tables, Produces/Consumes slices, configuration and other requests' objects are untouched (selectRoutes, SelectRoute, Routes copies, ExtractParameters, NewRequest/NewResponse, wrapRequestResponse, dispatch, CORS Filter/doPreflightRequest, OPTIONSFilter, computeAllowedMethods).",
+ "Deductive frame proofs: each function under contract on the dispatch path changes only the locations in its modifies clause — route tables, Produces/Consumes slices, configuration and other requests' objects are untouched (selectRoutes, SelectRoute of both routers, Routes copies, ExtractParameters, NewRequest/NewResponse, wrapRequestResponse, dispatch, CORS Filter/doPreflightRequest, OPTIONSFilter, computeAllowedMethods); the CORS filter value is not mutated by a request.",
  COMMON_ASSUME + "A-CB (callbacks change only the objects handed to them), typed heaps (no unsafe aliasing).",
  ["functions not under contract", "concurrent interleavings"],
  TECH + ", frame conditions"),
